@@ -60,7 +60,7 @@ namespace GeographicLib {
     , _e(sqrt(_mu))
     , _extendp(extendp)
     , _eEu(_mu)
-    , _eEv(_mv)
+    , _eEv(_mv, 0, _mu, 1)
   {
     if (!(isfinite(_a) && _a > 0))
       throw GeographicErr("Equatorial radius is not positive");
